@@ -33,7 +33,9 @@ type Run struct {
 	Tape *Tape
 	Dir  string // scratch directory (tmpfs)
 
-	MutexEvery int    // with MutexSeam: only every n-th acquisition of a goroutine yields (0/1 = all)
+	MutexEvery int // with MutexSeam: only every n-th acquisition of a goroutine yields (0/1 = all)
+
+	AtomicSeam bool   // statements with atomic field operations are scheduling points (mutexyield build only)
 	MutexSeam  bool   // sync-mutex acquisitions are scheduling points in this run (binary built with bin/build mutex)
 	bodyDone   bool   // the check's Run function returned
 	bigDir     string // disk-backed scratch directory, if UseDiskScratch was called
@@ -85,6 +87,9 @@ func (r *Run) UseDiskScratch() {
 		return
 	}
 	r.bigDir, r.Dir = d, d
+	// such a run decodes transaction files of a gigabyte: the per-run memory
+	// ceiling (runner.go) would turn into a collector that never stops
+	debug.SetMemoryLimit(int64(envInt("SIM_BIG_MEM_LIMIT_MB", 8192)) << 20)
 }
 
 // Thorough reports whether the run belongs to the thorough tier.
@@ -300,6 +305,7 @@ type G struct {
 	parked bool
 	until  time.Duration // stalled until this simulated time (fault)
 	kill   bool          // if set when released, the seam reports "killed"
+	inOp   int           // scheduling points passed since the goroutine's last "op" yield (how deep inside an operation it is)
 }
 
 // Action is a harness-provided event that can be chosen by the driver.
@@ -402,6 +408,11 @@ func (s *Sched) Yield(node int, seam, detail string) bool {
 		s.byID[id] = g
 	}
 	g.seam, g.detail, g.parked, g.kill = seam, detail, true, false
+	if seam == "op" {
+		g.inOp = 0
+	} else {
+		g.inOp++
+	}
 	s.parked[g] = struct{}{}
 	s.mu.Unlock()
 	<-g.ch
